@@ -94,6 +94,17 @@ def check(ctx: Ctx):
         ctx.check(okt, "R-MODE.d", "MGM: ties go to the tie-break, with the best neighbour gain", hg, tie[0] if tie else hg.node,
                   "an equal best gain must be resolved by _break_ties(<best neighbour gain>)")
 
+    # tie participants: exactly the neighbours whose gain equals the best one, plus the variable itself
+    bt = repo.func(MGM, "MgmComputation._break_ties")
+    ctx.touch(bt)
+    for n in [n for n in ast.walk(bt.node) if isinstance(n, ast.Assign) and norm(n.targets[0]) == "ties"]:
+        v = n.value
+        okt = isinstance(v, ast.Call) and call_name(v) == "sorted" and isinstance(v.args[0], ast.BinOp) and isinstance(v.args[0].left, ast.ListComp)
+        if okt:
+            g = v.args[0].left.generators[0]
+            okt = norm(g.iter) == "self._neighbors_gains.items()" and len(g.ifs) == 1 and norm(g.ifs[0]) == f"gain == {bt.params[1]}" and "self.name" in norm(v.args[0].right)
+        ctx.check(okt, "R-MODE.d", "MGM: the tie-break is played among the tied neighbours and the variable only", bt, n,
+                  "if non-tied neighbours take part, two tied variables can both lose and a cycle ends without a move although both could improve")
     # =============================== MGM2 ====================================
     G.check_mode_helpers(ctx, repo, "R-MODE.d")
     hv2 = repo.func(MGM2, "Mgm2Computation._handle_value_messages")
@@ -201,6 +212,7 @@ VARIANTS = [
     ("mgm2_best_offer_flip", _M2, "                if (global_gain > best_gain and self._mode == \"min\") or (", "                if (global_gain < best_gain and self._mode == \"min\") or (", "break", "R-MODE.d"),
     ("mgm2_commit_flip", _M2, "            elif (self._mode == \"min\" and gain > self._potential_gain) or (\n                self._mode == \"max\" and gain < self._potential_gain\n            ):", "            elif gain > self._potential_gain:", "break", "R-MODE.d"),
     ("mgm2_best_value_flip", _M2, "                or (best_cost > c and self._mode == \"min\")", "                or (best_cost < c and self._mode == \"min\")", "break", "R-MODE.b"),
+    ("mgm_tie_filter_dropped", _M, "                [\n                    k\n                    for k, (gain, _) in self._neighbors_gains.items()\n                    if gain == max_gain\n                ]\n                + [self.name]", "                [\n                    k\n                    for k, (gain, _) in self._neighbors_gains.items()\n                ]\n                + [self.name]", "break", "R-MODE.d"),
     ("n_mgm_ifexp", _M, "            if self._mode == \"min\":\n                max_neighbors = max([gain for gain, _ in gains.values()])\n                is_best = self._gain > max_neighbors\n            else:\n                max_neighbors = min([gain for gain, _ in gains.values()])\n                is_best = self._gain < max_neighbors",
      "            all_gains = [gain for gain, _ in gains.values()]\n            max_neighbors = max(all_gains) if self._mode == \"min\" else min(all_gains)\n            is_best = self._gain > max_neighbors if self._mode == \"min\" else self._gain < max_neighbors", "neutral"),
 ]
